@@ -39,7 +39,12 @@ CONSTANTS
     FamsFull,    \* producer families used on shallow chains (nopen <= FullDepth)
     FamsRep,     \* representative producer families used everywhere
     FullDepth,
-    FullMid      \* max number of statements between producer and Use for families outside FamsRep
+    FullMid,     \* max number of statements between producer and Use for families outside FamsRep
+    OpenOps,     \* which opener statements are tried ("Op:a" strings), see AllOpenOps
+    WideOpen,    \* TRUE: scoped / scope_guard are also tried on handles other than the innermost one (two-handle
+                 \* interplay: a frame opened through the ORIGINAL while an alias -- by_value copy, as_scope borrow,
+                 \* claim guard -- is around, and vice versa)
+    Paths        \* ways of writing the producer on the innermost handle
 
 (***************************************************************************)
 (* Signature table, part 1: producer families.                             *)
@@ -499,7 +504,7 @@ Run(root, seq) == RunFrom(Init0(root), seq, 1)
 (***************************************************************************)
 HandleSet(st) == {j \in 1..Len(st.ents) : IsHandle(st, j) /\ Usable(st, j)}
 
-OpenCands(st) ==
+OpenCandsTop(st) ==
     LET t == TopHandle(st) IN
     IF st.root \in {"pool", "unsendpool"} /\ t = 0
     THEN (IF st.ents[1].moved THEN {} ELSE {St("PoolGet", 1, "", "")})
@@ -517,6 +522,20 @@ OpenCands(st) ==
     \cup (IF k \in {"smut", "sval", "claim", "pguard"} THEN {St("ByValue", t, "", "")} ELSE {})
 
 
+OpKey(s) == s.op \o ":" \o s.a
+AllOpenOps == {"RefShr:", "RefMut:", "AsScope:", "AsScope:from", "AsMutScope:", "AsMutScope:from", "Scoped:scoped",
+               "Scoped:scoped_aligned", "Scoped:scoped_trait", "Aligned:", "Guard:", "Guard:block", "Claim:", "ByValue:",
+               "PoolGet:"}
+\* two-handle interplay: open a frame through a handle that is not the innermost one (the innermost one is then an
+\* alias of memory that the new frame will rewind)
+OpenCandsWide(st) ==
+    LET t == TopHandle(st) IN
+    IF ~WideOpen \/ t = 0 THEN {}
+    ELSE UNION {{St("Scoped", j, "scoped", ""), St("Guard", j, "", "")} :
+                j \in {j \in HandleSet(st) : j # t /\ st.ents[j].k \in MutCap /\ ClaimOK(st, j)
+                                              /\ NotLockedByClosure(st, j, "mut")}}
+OpenCands(st) == {s \in OpenCandsTop(st) \cup OpenCandsWide(st) : OpKey(s) \in OpenOps}
+
 \* a guard directly after its creation must hand out a scope before anything else can be opened on it
 GuardPending(st) == \E g \in 1..Len(st.ents) : st.ents[g].k = "guard" /\ Usable(st, g) /\ st.ents[g].aux = 0
                                                /\ g > TopHandle(st)
@@ -529,7 +548,7 @@ ProduceCands(st) ==
     LET fams == IF st.nall <= FullDepth THEN FamsFull \cup FamsRep ELSE FamsRep
         t == TopHandle(st)
     IN \* innermost handle: every family and path; outer ("locked") handles: a few families, written explicitly (p1)
-       {St("Produce", t, f, p) : f \in {f \in fams : t # 0 /\ ClaimOK(st, t)}, p \in {"p1", "p2", "p3"}}
+       {St("Produce", t, f, p) : f \in {f \in fams : t # 0 /\ ClaimOK(st, t)}, p \in Paths}
   \cup {St("Produce", h, f, "p1") : h \in {j \in HandleSet(st) : j # t /\ ClaimOK(st, j)}, f \in fams \cap LockedFams}
 
 MidCands(st) ==
